@@ -246,7 +246,7 @@ pub fn main(opts: &Opts) -> Report {
         }
     }
     let settings: Vec<(usize, usize)> = vec![(0, 10), (1, 20), (2, 50), (10, 1500), (10, 40), (0, 3), (2, 2), (5, 200)];
-    let txs = if opts.replay.is_some() { 1 } else { opts.budget(16 * 150, 16 * 6000) };
+    let txs = if opts.replay.is_some() { 1 } else { opts.budget(16 * 2000, 16 * 60000) };
     for k in 0..txs {
         let (min, max) = *rng.pick(&settings);
         let mut cfg = Cfg { min, max, checksum: k % 3 != 0, fix_bits: k % 4 == 1 };
@@ -288,7 +288,7 @@ pub fn main(opts: &Opts) -> Report {
         }
     }
     // Corrupted part.
-    let frames = if opts.replay.is_some() { 0 } else { opts.budget(16 * 3, 16 * 60) };
+    let frames = if opts.replay.is_some() { 0 } else { opts.budget(16 * 20, 16 * 400) };
     for k in 0..frames {
         let plen = rng.range(3, 40);
         let payload = gen_payload(&mut rng, plen);
